@@ -7,7 +7,7 @@ import os
 from tfv import core
 from tfv.core import Violation, run_async
 from tfv.data import RefProvider, Tree
-from tfv.gen import DocGen, gen_schema
+from tfv.gen import DocGen, gen_schema, gen_split
 from tfv.impl import Harness, clean_registry
 from tfv.model import canon, kind_of, named, possible_types, print_document, ty
 from tfv.ref import Executor, RefRequestError
@@ -21,7 +21,8 @@ RULE = (
     "case = generated schema x valid document x operation x variables x lazily drawn resolver data x "
     "implementation plan; oracle = independent reference executor on the model (ordered data, resolver-call "
     "multiset, type-resolver precedence); parent values come as dicts, attribute objects, class-named objects, read-only mappings and "
-    "row objects with only __getitem__. Distinct = SHA-1 of the canonical case spec; non-trivial = the "
+    "row objects with only __getitem__; a quarter of the schemas are spelled with split (definition + extend) types; 12% of the "
+    "requests are followed by a variant with one failing position judged by C02's oracle under this plan. Distinct = SHA-1 of the canonical case spec; non-trivial = the "
     "executed operation exercised at least one of: a type condition differing from the runtime type, a "
     "response key collected from >=2 field nodes, @skip/@include driven by a variable, an abstract-typed value."
 )
@@ -57,6 +58,8 @@ def gen_plan(c, schema):
         kw["coerce_list_concurrently"] = c.maybe(50)
     plan["engine_kwargs"] = kw
     plan["inherit_parent_concurrency"] = c.maybe(50)
+    if c.maybe(25):
+        plan["sdl_split"] = gen_split(c, schema)  # some type definitions arrive as definition + `extend` block
     plan["concurrency"] = {}
     if c.maybe(40):
         for tn, td in schema["types"].items():
@@ -190,6 +193,32 @@ def case(c, stats):
         classes = sorted(flags) + [k for k in ("n_frags", "spread", "inline", "var_nested", "single_into_list", "var_nn_via_default", "repeat_key") if gstats.get(k)]
         sample = {"query": print_document(spec["doc"]).text, "variables": spec["variables"], "op": spec["op"], "sdl_types": list(spec["schema"]["types"]), "flags": sorted(flags)}
         stats.case(spec, nontrivial, classes, sample)
+        if c.maybe(12):
+            faulted_variant(c, schema, plan, spec, h, stats)
+
+
+def faulted_variant(c, schema, plan, spec, h, stats):
+    """the same request with one failing position (C02's fault sites and oracle) under *this* implementation plan:
+    `data` is what the specification prescribes also when a position cannot be completed"""
+    from tfv.props import c02
+
+    _, ex, _, _ = reference(spec, None)
+    served = set(plan.get("default_fields") or ()) if not plan.get("custom_default_resolver") else set()
+    sites = []
+    for lab, key, f, is_item in c02.fault_sites(schema, ex):
+        if lab.startswith("type:") or lab == "var_null":
+            continue
+        p = tuple(key)
+        while p and p not in ex.results:
+            p = p[:-1]
+        if p and ex.results[p][2] not in served:
+            sites.append((lab, key, f))
+    if not sites:
+        return
+    lab, key, f = c02.pick_fault(c, [(s[0], s[1], s[2], False) for s in sites])[:3]
+    fspec = dict(spec, faults=[[c02.key_to_json(key), c02.fault_to_json(f)]])
+    c02.check_faulted(fspec, h)
+    stats.case(fspec, True, ["faulted_variant", "fault:" + lab], None)
 
 
 def run_worker(seed, tier, index, nworkers):
@@ -203,6 +232,10 @@ def run_worker(seed, tier, index, nworkers):
 
 
 def replay(spec):
+    if spec.get("faults"):
+        from tfv.props import c02
+
+        return c02.replay(spec)
     check(spec, None)
 
 TECHNIQUE = "property-based testing (Hypothesis): generated schema/document/data vs. independent reference executor (differential oracle)"
